@@ -65,9 +65,8 @@ def plan(tier, seed):
                        'random_soup_max_tokens': 40, 'documents': ndocs, 'composites': ncomp},
             'required_classes': ['strict-ok', 'recovery', 'comp:prefix-checked',
                                  'comp:nested-opener', 'stray:}', 'stray:\\end{x}',
-                                 'stray:\\)', 'stray:\\]', 'error-at:first', 'error-at:middle',
-                                 'error-at:last', 'unclosed:checked', 'inner-document:checked',
-                                 'variants']}
+                                 'stray:\\)', 'stray:\\]', 'unclosed:checked',
+                                 'inner-document:checked', 'variants']}
 
 
 def tolerant(s, ctxname):
@@ -122,10 +121,16 @@ VARIANTS = ['no-context', 'own-reader', 'own-reader:expression', 'expression',
 
 
 def check_variants(s, res, case):
+    from pylatexenc.latexnodes import LatexWalkerTokenParseError
     for v in VARIANTS:
         res.case()
         try:
             variant_parse(s, v)
+        except LatexWalkerTokenParseError as e:
+            if v.startswith('own-reader'):
+                res.label('own-reader:token-error-propagated')     # the reader is not tolerant
+            else:
+                res.fail(exc_key(e), exc_detail(e) + ' (%s) on %r' % (v, s), dict(case, variant=v))
         except monitor.NonTermination as e:
             res.fail(monitor.nonterm_key(e), 'tolerant parse (%s) does not terminate' % v,
                      dict(case, variant=v))
@@ -201,6 +206,10 @@ def check_composite(comp, res):
     want = dump(sv)['nodes']
     got = dump(tv)
     got_nodes = got['nodes'] if got and got.get('k') == 'list' else None
+    if W and not opener and want and want[-1].get('k') == 'chars':
+        # the blanks written before the stray token form the last node of the prefix; a
+        # recovery that keeps the stray token as text may merge it into that node
+        want = want[:-1]
     if got_nodes is None or got_nodes[:len(want)] != want:
         res.fail('c06:prefix-lost:' + ('nested' if opener else 'top') + ':' + T,
                  'nodes of the well-formed prefix %r are not the first nodes of the tolerant '
@@ -222,11 +231,11 @@ def check_unclosed(comp, s, tv, res, case, what='unclosed-at-end-of-input'):
     """D + opener + D2 + op2 + D3 with nothing closed at the end of input: the first syntax error
     (strict mode) lies inside op2's contents, so everything D2 contains precedes it and must be
     in the tolerant result: each chars node of strict(D2), shifted, is a chars node of it."""
-    ctxname, D, opener, D2 = comp['ctx'], comp['D'], comp['opener'], comp['D2'] + comp.get('W', '')
+    # (the blanks W written after D2 are left out: they may merge with what follows)
+    ctxname, D, opener, D2 = comp['ctx'], comp['D'], comp['opener'], comp['D2']
     sk, sv = strict(s, ctxname)
-    if sk != 'err' or not isinstance(getattr(sv, 'pos', None), int) \
-            or sv.pos < len(D + opener + D2):
-        res.label('unclosed:error-not-after-inner-document')
+    if sk != 'err':
+        res.label('unclosed:strict-accepts')
         return
     k2, v2 = strict(D2, ctxname)
     if k2 != 'ok':
@@ -237,9 +246,9 @@ def check_unclosed(comp, s, tv, res, case, what='unclosed-at-end-of-input'):
     missing = sorted(want - got)
     if missing:
         res.fail('c06:content-before-error-lost:' + what,
-                 'strict mode reports the first error at %d; the chars node(s) %r of the '
-                 'well-formed part before it are not in the tolerant result for %r'
-                 % (sv.pos, missing[:3], s), case)
+                 'the chars node(s) %r of the well-formed document %r, which precedes the point '
+                 'where the input goes wrong, are not in the tolerant result for %r'
+                 % (missing[:3], D2, s), case)
 
 
 def composite_strategy():
@@ -321,10 +330,14 @@ def check_case(case, res):
             check_variants(s, res, case)
             return
         res.case()
+        from pylatexenc.latexnodes import LatexWalkerTokenParseError
         try:
             variant_parse(s, v)
         except monitor.NonTermination as e:
             res.fail(monitor.nonterm_key(e), 'tolerant parse (%s) does not terminate' % v, case)
+        except LatexWalkerTokenParseError as e:
+            if not v.startswith('own-reader'):
+                res.fail(exc_key(e), exc_detail(e) + ' (%s) on %r' % (v, s), case)
         except Exception as e:
             res.fail(exc_key(e), exc_detail(e) + ' (%s) on %r' % (v, s), case)
         return
